@@ -747,14 +747,15 @@ func (db *DB) buildSortedSetIdx(bucket string, r *Record) error {
 		db.SortedSetIdx[bucket] = zset.New()
 	}
 
+	if r.E == nil {
+		return ErrEntryIdxModeOpt
+	}
+
 	if r.H.meta.Flag == DataZAddFlag {
 		keyAndScore := strings.Split(string(r.E.Key), SeparatorForZSetKey)
 		if len(keyAndScore) == 2 {
 			key := keyAndScore[0]
 			score, _ := strconv2.StrToFloat64(keyAndScore[1])
-			if r.E == nil {
-				return ErrEntryIdxModeOpt
-			}
 			_ = db.SortedSetIdx[bucket].Put(key, zset.SCORE(score), r.E.Value)
 		}
 	}
